@@ -1157,6 +1157,8 @@ func (p *parser) parseBlock(block text.BlockReader, parent ast.Node, pc Context)
 	source := block.Source()
 	block.Reset(parent.Lines())
 	for {
+		// a backslash never escapes across a line end
+		escaped = false
 	retry:
 		line, _ := block.PeekLine()
 		if line == nil {
